@@ -147,7 +147,7 @@ def run_shard(ctx):
     n = ctx.params['cases']
     for i in range(n):
         case = RC.gen_case(ctx.rng, None, pruning=(i % 3 == 0))
-        if case['form'] in ('series', 'serieslist'):
+        if case['form'] in RC.SERIES_FORMS:
             case['form'] = 'list' if i % 2 else 'dict'
         if i % 4 == 1 and case['xs']:
             for _ in range(ctx.rng.randint(1, 6)):       # heavy repeats
